@@ -729,7 +729,7 @@ func init() {
 		},
 		Rule:     "POST /messages/publish batches of 1-12 items with zero or one invalid item of every kind at every position (unknown route, publish disabled by route flag, payload over max_body, invalid base64, invalid header name/value, bad timestamp, blank id, id repeated in the batch, id already queued, unknown target), request-level faults (missing audit reason, unknown fields, missing/wrong admin token), pull / single- and multi-target deliver / outbound / internal routes, nearly full queues under both drop policies; oracle: reference validator -> reject => listing unchanged and item_index names the offending item; accept => every item stored once, queued, one target, or 503 with nothing stored when the model says the queue is full; non-trivial = >=2 publishes judged; distinct = step-kind sequences",
 		RealStub: stub,
-		Quick:    1500, Thorough: 60000,
+		Quick:    5000, Thorough: 120000,
 	})
 	Register(&CheckSpec{
 		Prop: "C14", World: "admin",
@@ -737,6 +737,6 @@ func init() {
 		NonTrivial: func(p *Program, r *Result) bool { return r.Probes["admin.mutation.ok"] >= 1 },
 		Rule:       "admin API part: populations created by publish and moved into leased/dead states; cancel/requeue/resume/DLQ requeue/delete by id and by filter through the Admin HTTP handlers (id lists with duplicates and unknown ids, filters with state/route/before/limit/preview); oracle: reference selection and counts, everything else unchanged; request-level rejections change nothing; non-trivial = >=1 accepted mutation",
 		RealStub:   stub,
-		Quick:      1200, Thorough: 40000,
+		Quick:      4000, Thorough: 100000,
 	})
 }
